@@ -51,7 +51,7 @@ class Q(object):
         return 'Q(%s, %s)' % (float(self.mag), self.dimstr())
 
 
-TOKEN = re.compile(r'-?[.\d]+|[a-zA-Z]+|\S')
+TOKEN = re.compile(r'-?[.\d]+(?:[eE][-+]?\d+)?|[a-zA-Z]+|\S')
 
 PREFIXES = {'Y': 24, 'Z': 21, 'E': 18, 'P': 15, 'T': 12, 'G': 9, 'M': 6,
             'k': 3, 'h': 2, 'da': 1, 'd': -1, 'c': -2, 'm': -3, 'u': -6,
